@@ -105,8 +105,19 @@ func emitSeq(b *strings.Builder, n *node, ind int) {
 	}
 }
 
+var plainKeyRe = regexp.MustCompile(`^[A-Za-z_][A-Za-z0-9_.-]*$`)
+
+// qk writes a mapping key: plain when unambiguous, single quoted otherwise (padded, unicode, ... names)
+func qk(k string) string {
+	if plainKeyRe.MatchString(k) && !reserved[strings.ToLower(k)] {
+		return k
+	}
+	return "'" + strings.Replace(k, "'", "''", -1) + "'"
+}
+
 func emitMap(b *strings.Builder, n *node, ind int) {
 	for i, k := range n.keys {
+		k = qk(k)
 		v := n.vals[i]
 		switch v.kind {
 		case nScalar:
@@ -172,6 +183,7 @@ type docCase struct {
 	Index     int               `json:"index"`
 	YAML      string            `json:"yaml"`
 	Cluster   string            `json:"cluster"`
+	ClusterCl string            `json:"cluster_name_class"`
 	Scheme    string            `json:"scheme"`
 	Vars      map[string]string `json:"template_vars"`
 	Env       envSpec           `json:"environment_defaults"`
@@ -216,7 +228,10 @@ var varValues = map[string]string{
 
 type gen struct {
 	r        *rand.Rand
-	cluster  string
+	cluster  string // the selected cluster name, as handed to the loader
+	ckey     string // the key the generator writes "the cluster's block" under (differs from cluster only for padded selected names)
+	twin     string // "" or the key of a decoy block whose name is NOT the selected one (other case, trimmed, prefix, ...)
+	cvar     string // value of the {{cluster}} template variable (independent of the selected name)
 	other    string
 	used     map[string]bool
 	noTmpl   bool // behavioural documents use no templates
@@ -517,7 +532,7 @@ func (g *gen) service(i int) (*node, string) {
 		if len(c.keys) == 0 {
 			c.add("options", mp())
 		}
-		s.add(g.cluster, c)
+		s.add(g.ckey, c)
 		desc += bd + "]"
 	}
 	if hasO {
@@ -529,6 +544,17 @@ func (g *gen) service(i int) (*node, string) {
 		}
 		s.add(g.other, o)
 		desc += "O[]"
+	}
+	if g.twin != "" && g.twin != g.cluster && s.get(g.twin) == nil && g.p(70) {
+		// a block for ANOTHER cluster whose name merely resembles the selected one; it states everything, so
+		// a loader that picks it up instead of (or in addition to) the exact block is seen
+		tw := mp()
+		tw.add("from", sc(fmt.Sprintf("svc%d-twin.sso.example.com", i)))
+		tw.add("to", sc(fmt.Sprintf("svc%d-twin.internal.example.org", i)))
+		tw.add("options", mp().add("allowed_groups", sq(sc("twin-only@corp.test"))).add("skip_auth_regex", sq(sc("'^/twin/.*$'"))).
+			add("timeout", sc("77s")).add("provider_slug", sc("twin-idp")))
+		s.add(g.twin, tw)
+		desc += "T[]"
 	}
 	if !hasD && !hasC && !hasO {
 		desc += "none"
@@ -887,15 +913,120 @@ func (g *gen) envSpec() envSpec {
 	return e
 }
 
+// classifyCluster names the class of a selected cluster name (used for curated documents and as a hint in signatures).
+func classifyCluster(name string) string {
+	switch {
+	case name == "default":
+		return "default"
+	case strings.TrimSpace(name) != name:
+		return "padded-selected-name"
+	case len(name) > 64:
+		return "very-long"
+	}
+	upper, other := false, false
+	for _, r := range name {
+		switch {
+		case r > 127:
+			return "unicode"
+		case r >= 'A' && r <= 'Z':
+			upper = true
+		case r < 'a' || r > 'z':
+			other = true
+		}
+	}
+	switch {
+	case upper:
+		return "mixed-case"
+	case other:
+		return "punctuation-digits"
+	}
+	return "plain-lowercase"
+}
+
+func flipCase(s string) string {
+	for _, c := range []string{strings.ToLower(s), strings.ToUpper(s), strings.Title(strings.ToLower(s))} {
+		if c != s {
+			return c
+		}
+	}
+	return ""
+}
+
+// chooseCluster picks the selected cluster name, the key its block is written under, optionally a decoy
+// ("twin") block name, and an unrelated other cluster. The reference selects by EXACT match of the
+// configured name against the block key (the docs: "cluster name <identifier> are cluster-specific settings").
+func (g *gen) chooseCluster() string {
+	g.cvar = clusters[g.r.Intn(len(clusters))]
+	cls := ""
+	switch x := g.r.Intn(100); {
+	case x < 42:
+		g.cluster, cls = clusters[g.r.Intn(len(clusters))], "plain-lowercase"
+		g.ckey = g.cluster
+		if g.p(15) {
+			g.twin = flipCase(g.cluster)
+		}
+	case x < 44:
+		g.cluster, g.ckey, cls = "default", "default", "default"
+	case x < 64:
+		g.cluster, cls = g.pick("usEast1", "Prod", "EU", "STAGING", "devTest", "Verif", "usWEST"), "mixed-case"
+		g.ckey = g.cluster
+		if g.p(45) {
+			g.twin = flipCase(g.cluster)
+		}
+	case x < 72:
+		g.cluster, cls = g.pick("us-east-1", "eu_west_2", "dc2.rack-7", "prod-2", "a1", "stage_B-3"), "punctuation-digits"
+		g.ckey = g.cluster
+		if g.p(35) {
+			g.twin = flipCase(g.cluster)
+		}
+	case x < 80:
+		base := g.pick("prod", "Prod", "us-east-1", "dev")
+		g.cluster, cls = g.pick(" "+base, base+" ", "\t"+base, " "+base+"  "), "padded-selected-name"
+		g.ckey = base // the document's block is named without the padding: per the reference it is NOT this cluster's
+		if g.p(30) {
+			g.twin = flipCase(base)
+		}
+		if g.p(25) {
+			// ... or the document really has a block under the padded name (quoted key): then that one is selected
+			g.ckey, g.twin = g.cluster, base
+		}
+	case x < 86:
+		g.cluster, cls = g.pick("продакшн", "prød", "東京", "Čluster"), "unicode"
+		g.ckey = g.cluster
+		if g.p(40) {
+			g.twin = flipCase(g.cluster)
+		}
+	case x < 90:
+		g.cluster, cls = "c"+strings.Repeat("luster", 50+g.r.Intn(100)), "very-long"
+		g.ckey = g.cluster
+		if g.p(40) {
+			g.twin = g.cluster[:len(g.cluster)-1]
+		}
+	default:
+		cls = "prefix-of-another-block"
+		if g.p(50) {
+			g.cluster, g.twin = "prod", g.pick("prod2", "pro", "prod-", "production")
+		} else {
+			g.cluster, g.twin = g.pick("prod2", "production", "dev.eu"), g.pick("prod", "dev")
+		}
+		g.ckey = g.cluster
+	}
+	for {
+		g.other = clusters[g.r.Intn(len(clusters))]
+		if !strings.EqualFold(g.other, strings.TrimSpace(g.cluster)) && !strings.EqualFold(g.other, g.twin) && !strings.EqualFold(g.other, g.ckey) {
+			break
+		}
+	}
+	return cls
+}
+
 var tmplRe = regexp.MustCompile(`\{\{([a-z_0-9]+)\}\}`)
 
 // genDoc generates case i of a stream.
 func genDoc(r *rand.Rand, i int, malformedPct int) *docCase {
 	g := &gen{r: r, used: map[string]bool{}}
-	ci := r.Intn(len(clusters))
-	g.cluster = clusters[ci]
-	g.other = clusters[(ci+1+r.Intn(len(clusters)-1))%len(clusters)]
-	dc := &docCase{Index: i, Cluster: g.cluster, Scheme: g.pick("http", "https", "https")}
+	cls := g.chooseCluster()
+	dc := &docCase{Index: i, Cluster: g.cluster, ClusterCl: cls, Scheme: g.pick("http", "https", "https")}
 
 	top := sq()
 	n := 1 + r.Intn(4)
@@ -949,7 +1080,7 @@ func genDoc(r *rand.Rand, i int, malformedPct int) *docCase {
 		switch {
 		case k == "cluster":
 			if g.p(93) {
-				dc.Vars[k] = g.cluster
+				dc.Vars[k] = g.cvar
 			} else {
 				tdesc = append(tdesc, k+":missing")
 			}
@@ -997,6 +1128,10 @@ func genDoc(r *rand.Rand, i int, malformedPct int) *docCase {
 		}
 	}
 	sort.Strings(descs)
-	dc.Shape = strings.Join(descs, " | ") + " tmpl(" + strings.Join(tdesc, ",") + ") env(" + ed + ") mal(" + dc.Malformed + ")"
+	twinMark := ""
+	if g.twin != "" {
+		twinMark = "+twin"
+	}
+	dc.Shape = "cl(" + cls + twinMark + ") " + strings.Join(descs, " | ") + " tmpl(" + strings.Join(tdesc, ",") + ") env(" + ed + ") mal(" + dc.Malformed + ")"
 	return dc
 }
